@@ -15,7 +15,7 @@ SPEC = dict(
              'read_value is established by the monitor on the real classes.',
         technique='Coq proof over generated tables + corollary of the own-bytes theorem + single-vs-bulk monitor',
         design_ref='DESIGN.md section 5 (C16)'),
-    stages=[SP.stage_tables, SP.inv_stage('single-vs-bulk-monitor', IM.mon_single)],
+    stages=[SP.stage_tables, SP.inv_stage('single-vs-bulk-monitor', IM.mon_single, e2e=True)],
     theorems=['C16_single_read_fetches_enough', 'C16_single_equals_bulk', 'C16_generated_single_equals_bulk', 'C16_coverage'],
     rule='every id of sensors() x ET/DT configurations (sampled in quick) x register fills {random, 0xFFFF, 0x7FFF, 0}; capability-change histories',
     trusted_base=SP.TB_SENS,
